@@ -192,9 +192,12 @@ TFsckD ==
    /\ UNCHANGED <<g, NT, K>>
 
 \* e2fsck -fn as the consistency oracle: clean exactly when the model says the filesystem is consistent
+\* (pass 4 accepts a count that saturated to 1 on a directory that is below the limit again -- "could be exact value" -- only when the
+\* directory is indexed; the same reading as Trace_DirNlink!CountOK)
+SatIndexed == \A i \in s.sat \cap DOMAIN s.ent : (s.links[i] = 1 /\ Refs(s, i) <= LinkMax) => (i \in DOMAIN L /\ L[i].dx # NoDx)
 TFsckN ==
    /\ IsEvent("fsckn")
-   /\ Holds((Tr[l].rc = 0) <=> Consistent(s))
+   /\ Holds((Tr[l].rc = 0) <=> (Consistent(s) /\ SatIndexed))
    /\ Tr[l].rc \in {0, 4}
    /\ UNCHANGED <<s, L, g, NT, K>>
 
